@@ -901,11 +901,23 @@ func (lunar *Lunar) GetTimePositionYinGuiDesc() string {
 }
 
 func (lunar *Lunar) GetTimePositionFu() string {
-	return LunarUtil.POSITION_FU[lunar.timeGanIndex+1]
+	return lunar.GetTimePositionFuBySect(2)
+}
+
+func (lunar *Lunar) GetTimePositionFuBySect(sect int) string {
+	offset := lunar.timeGanIndex + 1
+	if 1 == sect {
+		return LunarUtil.POSITION_FU[offset]
+	}
+	return LunarUtil.POSITION_FU_2[offset]
 }
 
 func (lunar *Lunar) GetTimePositionFuDesc() string {
-	return LunarUtil.POSITION_DESC[lunar.GetTimePositionFu()]
+	return lunar.GetTimePositionFuDescBySect(2)
+}
+
+func (lunar *Lunar) GetTimePositionFuDescBySect(sect int) string {
+	return LunarUtil.POSITION_DESC[lunar.GetTimePositionFuBySect(sect)]
 }
 
 func (lunar *Lunar) GetTimePositionCai() string {
